@@ -2,6 +2,9 @@
   Lemmas/CoreXWalk2 — second half of the `QClosed` walk: sequencer messages, kick, fraud, obsolete
   marking, block processing, and the step / run theorems.
 
+  (Integration with agent-corea: the three cases `punish` / `transferOwner` / `setSeqParams` of `apply_w`
+  were added exactly along the note below.)
+
   NOTE FOR WHOEVER ADDS A CONSTRUCTOR TO `Core.Op`: `apply_w` below is the ONE place of the
   `CoreX*` / `Props/C0nX*` files that splits over the constructors of `Op`.  A new message whose
   handler leaves `ras` alone (e.g. a punish proposal = `punish` behind an authority check) is closed by
@@ -307,6 +310,13 @@ theorem apply_w (hc : QClosed Q) {s s' : St} {o : Op} (w : W Q s) (e : apply s o
   | update m => exact (updateState_w hc w e).q
   | fraud au ra hh rev p rw => exact fraud_q hc w e
   | obsolete au vs => exact markObsolete_q hc w e
+  | punish au a rw => exact RaAll.of_ras_eq w.q (punish_ras (punishProposal_ok e).2)
+  | transferOwner sg ra' no =>
+    obtain ⟨r, hg, _, _, _, rfl⟩ := transferOwner_ok e
+    exact RaAll.setRa w.q (hc.view (w.q.get hg) rfl (Or.inl rfl))
+  | setSeqParams au sp =>
+    obtain ⟨_, _, _, rfl⟩ := setSeqParams_ok e
+    exact RaAll.of_ras_eq w.q rfl
   | begin_ dt => simp only [apply] at e; injection e with e; subst e; exact beginBlock_q hc w.q
   | end_ f => simp only [apply] at e; injection e with e; subst e; exact endBlock_q hc w.q
 
